@@ -425,3 +425,102 @@ func runC15Large(c *explore.Ctx) {
 		}
 	}
 }
+
+// c15Drops: DROPS-LARGE - the caller's deletion bitmaps at sizes a merge might treat specially: a
+// 4000-document segment merged (alone and after a small partner, through the public API and the
+// chunk-mode hook) with a bitmap of 100 ... 3999 documents that are consecutive from the front,
+// consecutive up to the end, or every other document, built by single Add calls (array / bitmap
+// containers, no run containers). Afterwards the bitmap must have the same members AND the same
+// serialized form, and the segment must persist the same bytes.
+func c15Drops(c *explore.Ctx) {
+	scope := "DROPS-LARGE"
+	n := 4000
+	var seg, partner segment.Segment
+	var segBytes []byte
+	var idx int64
+	for _, size := range []int{100, 1024, 2048, 3071, 3072, 3073, 3500, 3999} {
+		for pattern := 0; pattern < 3; pattern++ {
+			for variant := 0; variant < 3; variant++ {
+				if pattern == 2 && size > n/2 {
+					continue
+				}
+				my := idx
+				idx++
+				if !c.MineIdx(scope, my) || c.Expired() {
+					continue
+				}
+				c.Eval()
+				c.Nontrivial()
+				c.R.States++
+				if seg == nil {
+					batch := make([]model.Doc, n)
+					for i := range batch {
+						batch[i] = model.Doc{gen.IDField("d", i), {N: "a", Len: 1, Terms: []model.Term{{T: "x", Freq: 1}}}}
+					}
+					var err error
+					if seg, err = build(batch, 1025); err != nil {
+						envFail(c, "C15 DROPS-LARGE environment: "+err.Error())
+						return
+					}
+					if segBytes, _, err = persist(seg); err != nil {
+						envFail(c, "C15 DROPS-LARGE environment: "+err.Error())
+						return
+					}
+					if partner, err = build([]model.Doc{gen.MixDoc(2, "p", 0), gen.MixDoc(1, "p", 1)}, 1025); err != nil {
+						envFail(c, "C15 DROPS-LARGE environment: "+err.Error())
+						return
+					}
+				}
+				bm := roaring.New()
+				for k := 0; k < size; k++ {
+					switch pattern {
+					case 0:
+						bm.Add(uint32(k))
+					case 1:
+						bm.Add(uint32(n - 1 - k))
+					case 2:
+						bm.Add(uint32(2 * k))
+					}
+				}
+				before, err := bm.ToBytes()
+				if err != nil {
+					envFail(c, "C15 DROPS-LARGE environment: "+err.Error())
+					return
+				}
+				val := bm.Clone()
+				cas := fmt.Sprintf("%s #%d: %d drops (pattern %d: 0 = from the front, 1 = up to the end, 2 = every other document) of a %d-document segment, merge variant %d (0 alone/public API, 1 alone/hook, 2 after a partner/public API)", scope, my, size, pattern, n, variant)
+				var merr error
+				msg := explore.Guard(func() {
+					switch variant {
+					case 0:
+						var w sliceWriter
+						_, merr = ice.Merge([]segment.Segment{seg}, []*roaring.Bitmap{bm}, 1<<16).WriteTo(&w, nil)
+					case 1:
+						_, _, _, merr = merge([]segment.Segment{seg}, []*roaring.Bitmap{bm}, 1025)
+					case 2:
+						var w sliceWriter
+						_, merr = ice.Merge([]segment.Segment{partner, seg}, []*roaring.Bitmap{nil, bm}, 1<<16).WriteTo(&w, nil)
+					}
+				})
+				c.R.Transitions++
+				if e := errOf(msg, merr); e != nil {
+					c.Violate(scope, my, sigOf("C15", "op", "error: "+e.Error()), e.Error(), cas)
+					continue
+				}
+				after, err := bm.ToBytes()
+				switch {
+				case err != nil:
+					c.Violate(scope, my, sigOf("C15", "after-op", "error: "+err.Error()), err.Error(), cas)
+				case !bm.Equals(val):
+					c.Violate(scope, my, sigOf("C15", "after-op", "bitmap-value: the caller's deletion bitmap changed"), fmt.Sprintf("cardinality %d -> %d", val.GetCardinality(), bm.GetCardinality()), cas)
+				case !bytes.Equal(before, after):
+					c.Violate(scope, my, sigOf("C15", "after-op", "bitmap-representation: the caller's deletion bitmap kept its value but its serialized form changed (in-place optimisation)"), fmt.Sprintf("%d -> %d serialized bytes", len(before), len(after)), cas)
+				default:
+					if b2, _, err := persist(seg); err != nil || !bytes.Equal(b2, segBytes) {
+						c.Violate(scope, my, sigOf("C15", "after-op", "segment-bytes: the merged segment persists different bytes than before"), fmt.Sprint(err), cas)
+					}
+				}
+			}
+		}
+	}
+}
